@@ -59,4 +59,20 @@ MUTANTS = {
         "created_not_arrival": [("_handlers/record_manager.py", "                    maybe_entry.reset_ttl(record)", "                    maybe_entry.set_created_ttl(maybe_entry.created, record.ttl)")],
         "complete_only_when_new": [("_handlers/record_manager.py", "        if updates:\n            self.async_updates_complete(new)", "        if updates and new:\n            self.async_updates_complete(new)")],
     },
+    "C10": {
+        "refresh_at_90": [("const.py", "_EXPIRE_REFRESH_TIME_PERCENT = 75", "_EXPIRE_REFRESH_TIME_PERCENT = 90")],
+        "rescue_step_half": [("_services/browser.py", "RESCUE_RECORD_RETRY_TTL_PERCENTAGE = 0.1", "RESCUE_RECORD_RETRY_TTL_PERCENTAGE = 0.5")],
+        "old_slot_never_cancelled": [("_services/browser.py", "            current.cancelled = True\n            del self._next_scheduled_for_alias[pointer.alias_key]", "            del self._next_scheduled_for_alias[pointer.alias_key]")],
+        "startup_linear": [("_services/browser.py", "self._next_run = self._loop.call_later(self._startup_queries_sent**2, self._process_startup_queries)",
+                            "self._next_run = self._loop.call_later(self._startup_queries_sent, self._process_startup_queries)")],
+        "d4_rearm_reverted": [("_services/browser.py", "        if when < next_run.when():", "        if False and when < next_run.when():")],
+        "d4_rescue_head_reverted": [("_services/browser.py", "        if schedule_rescue:\n", "        if False:\n")],
+        "d8_reverted": [("_services/browser.py", "                current.ttl = int(pointer.ttl) if isinstance(pointer.ttl, float) else pointer.ttl\n                current.expire_time_millis = pointer.get_expiration_time(100)\n", "")],
+        "d9_reverted": [("_services/browser.py", "self._next_scheduled_for_alias.get(pointer.alias_key)", "self._next_scheduled_for_alias.get(pointer.alias)")],
+        "first_query_qm": [("_services/browser.py", "question_type = QU_QUESTION if self._question_type is None and first_request else self._question_type",
+                            "question_type = self._question_type")],
+        "min_spacing_ignored": [("_services/browser.py", "        if next_scheduled is not None and next_scheduled.when_millis > next_time_millis:",
+                                 "        if next_scheduled is not None:")],
+        "goodbye_keeps_schedule": [("_services/browser.py", "                        self.query_scheduler.cancel_ptr_refresh(pointer)\n", "")],
+    },
 }
